@@ -289,7 +289,15 @@ pub fn run_batch(args: BatchArgs) -> i32 {
             if c.owned_by(&args.prop) {
                 // minimise with fresh processes (macro statics cannot be reset completely)
                 let mut best = case.clone();
-                if child_fails(&args, &best) {
+                if !child_fails(&args, &best) {
+                    // does not reproduce on its own in a fresh process: the difference comes from
+                    // state an earlier run left behind in the macro's statics (which cannot be reset
+                    // completely), not from the macro disagreeing with the core cache
+                    b.res.foreign_deviations += 1;
+                    b.res.counters.inc("foreign.not_reproducible_alone");
+                    continue;
+                }
+                {
                     let base = best.clone();
                     let mut pred = |ops: &[Op2]| {
                         let mut t = base.clone();
